@@ -487,8 +487,34 @@ func (f *Frame) convert(x *ssa.Convert) {
 			if eb, ok := sl.Elem().Underlying().(*types.Basic); ok && eb.Kind() == types.Uint8 {
 				r := f.u.fresh("b2s", StrSort)
 				f.u.addFact(tb.Eq(f.u.slen(r), v[2]))
-				// bytes: remembered lazily via snapshot record
-				f.u.b2s = append(f.u.b2s, b2sRec{r, f.cur.mem.m[BV8.Key()], v[0], v[1], v[2]})
+				mem := f.cur.mem
+				if f.stub != nil && f.stub.oldLoads[x] {
+					mem = f.stub.old
+				}
+				rec := b2sRec{r, mem.m[BV8.Key()], v[0], v[1], v[2]}
+				if n, ok := v[2].ConstInt64(); ok && n <= 64 {
+					// the bytes of the new string, and extensionality against the other strings
+					// of the same length built this way (map keys made from hash arrays)
+					var mine []*Term
+					for i := int64(0); i < n; i++ {
+						b := f.u.mc.Sel(rec.mem, v[0], tb.Add(v[1], tb.BV(64, i)))
+						sb := tb.UF("sbyte", BV8, r, tb.BV(64, i))
+						mine = append(mine, sb)
+						if !b.hasBV {
+							f.u.addFact(tb.Eq(sb, b))
+						}
+					}
+					for _, o := range f.u.b2s {
+						if on, ok := o.n.ConstInt64(); ok && on == n {
+							var eqs []*Term
+							for i := int64(0); i < n; i++ {
+								eqs = append(eqs, tb.Eq(mine[i], tb.UF("sbyte", BV8, o.r, tb.BV(64, i))))
+							}
+							f.u.addFact(tb.Implies(tb.And(eqs...), tb.Eq(r, o.r)))
+						}
+					}
+				}
+				f.u.b2s = append(f.u.b2s, rec)
 				f.set(x, []*Term{r})
 				return
 			}
